@@ -7,6 +7,7 @@ import (
 
 var commands = map[string]func([]string){
 	"c01": runC01,
+	"c02": runC02,
 	"cdoc": runCDoc,
 	"c04": runC04,
 	"c05": runC05,
